@@ -647,6 +647,17 @@ def run(ctx):
     for _ in range(2 if ctx.quick else 14):
         budgets.append(r.sample(cli_pool, min(len(cli_pool), r.choice([1, 3, 6, 12]))))
     budgets.append(r.sample(long_raw, 6) + r.sample(sweep_raw, 6))          # long descriptions through the command too
+    # families: several Unknown descriptions of ONE merchant in one run (they share the suggested name, their tails - payment references,
+    # store numbers in two spellings, departments, cities - differ): every listed description gets a rule that matches THAT description,
+    # whatever the other descriptions of the run are and however they rank by spend (later lines are the bigger spenders)
+    TAILS = ['DES:PAYROLL ID:123456', 'DES:EXPENSE ID:99', 'DES:REFUND', 'GAS 00112 TIGARD OR', '#112 GAS OR', 'STORE 12345 SEATTLE WA',
+             'STORE 99 PORTLAND OR', 'PHARMACY #4 WA', 'MARKET', 'ONLINE PMT', '#7 MAIN ST', 'FUEL 574496858', '']
+    for _ in range(2 if ctx.quick else 12):
+        base = r.choice(['ACME CORP', 'COSTCO WHSE', 'SHELL OIL', 'KROGER', 'SQ *BLUE BOTTLE', 'WAL-MART', 'TARGET'])
+        fam = [(base + ' ' + t).strip() for t in r.sample(TAILS, r.choice([2, 3, 4]))]
+        if r.random() < 0.5:
+            fam.reverse()
+        budgets.append(fam + r.sample(cli_pool, min(len(cli_pool), r.choice([0, 2]))))
     for i, b in enumerate(budgets):
         b = property_descs(b)
         fs, k = cli_budget(b, f'budget{i}')
